@@ -17,6 +17,8 @@ type Ctx struct {
 	P    *prog.Program
 	R    *report.Result
 	Tier string
+	// Shared: this run only feeds another property's check (shareRule); it shares nothing itself.
+	Shared bool
 }
 
 type RuleFunc func(c *Ctx)
@@ -227,4 +229,57 @@ func (c *Ctx) freshMapResult(rule, key string, f *ssa.Function, why string) {
 		}
 	}
 	c.R.Check(ok && n > 0, rule, key, c.P.Pos(f.Pos()), "every return is a map made in the call", why+" (can return "+bad+")")
+}
+
+// shareRule runs the rules of another property on the same program and takes over the obligations of one of its
+// rules under an id of this property.  It is used where one mechanism is a necessary condition of several
+// properties (a change that breaks it should be reported by the check of each of them).  A source rule that did not
+// produce anything (its anchor is gone) counts as a checker failure here too.
+func (c *Ctx) shareRule(from string, srcRule, dstRule, text string) {
+	if c.Shared {
+		return
+	}
+	rf := Registry[from]
+	if rf == nil {
+		c.R.Break("%s: rules of %s not registered", dstRule, from)
+		return
+	}
+	tmp := report.New(from, c.R.Tier, 0)
+	func() {
+		defer func() {
+			if r := recover(); r != nil {
+				tmp.Break("analysis panic: %v", r)
+			}
+		}()
+		rf(&Ctx{P: c.P, R: tmp, Tier: c.Tier, Shared: true})
+	}()
+	min := 1
+	for _, ri := range tmp.Rules {
+		if ri.ID == srcRule && ri.Min > 0 {
+			min = ri.Min
+		}
+	}
+	c.R.Rule(dstRule, "shared", text+" (= "+srcRule+")", min)
+	n := 0
+	for _, o := range tmp.Obls {
+		if o.Rule != srcRule {
+			continue
+		}
+		n++
+		key := strings.TrimPrefix(o.Key, srcRule+"|")
+		switch o.Status {
+		case report.OK:
+			c.R.Discharge(dstRule, key, o.Pos, o.Arg)
+		default:
+			c.R.Violate(dstRule, key, o.Pos, o.Detail)
+		}
+	}
+	for _, b := range tmp.Broken {
+		if strings.Contains(b, srcRule) {
+			c.R.Break("%s (shared from %s): %s", dstRule, srcRule, b)
+		}
+	}
+	if n == 0 {
+		c.R.Break("%s: the shared rule %s produced no obligation", dstRule, srcRule)
+	}
 }
